@@ -108,6 +108,7 @@ Definition qnode_gen (i : nat) (x : node) (B : nstatus -> Prop) (O : nat -> Prop
       match st x with
       | NRunning => ran_ok x /\ setup_fails c i = false
       | NError => setup_fails c i = true
+      | NCancel => False
       | _ => True
       end
   | PGone =>
@@ -116,6 +117,7 @@ Definition qnode_gen (i : nat) (x : node) (B : nstatus -> Prop) (O : nat -> Prop
       | NError => setup_fails c i = false ->
                   dry c = false /\ allf (outs x) /\ length (outs x) = att x /\
                   att x = S (rc x) /\ rc x = rlimit (steps c i)
+      | NCancel | NRunning => False
       | _ => True
       end
   | PRepeatWait => True
@@ -257,11 +259,201 @@ Proof.
   all: try (apply HX2; auto; fail).
   all: try (rewrite M in *; cbn [past_exit past_wait] in * ).
   all: try (destruct (Nat.eqb_spec j i) as [->|Hne]; [|first [apply HX1; auto; fail|apply HX2; auto; fail]]).
-  all: try (exfalso; specialize (HX1 eq_refl i ltac:(assumption));
+  all: try (exfalso; specialize (HX1 X i ltac:(assumption));
             assert (Hrun : st (nd s i) = NRunning) by (apply (HG Hc0); rewrite ?M; reflexivity);
             rewrite Hrun in HX1; discriminate).
-  all: try (exfalso; specialize (HX2 eq_refl i ltac:(assumption)); rewrite ?M in HX2; destruct HX2; discriminate).
-  Show.
-Abort.
+  all: try (exfalso; specialize (HX2 X i ltac:(assumption)); rewrite ?M in HX2; destruct HX2; discriminate).
+  all: try (exfalso; rewrite HS in *; discriminate).
+  all: try (exfalso; assert (canceled s = true) by (apply HF; congruence); congruence).
+  - (* LExit *) rewrite Hc0 in H0. cbn [orb] in H0. unfold all_terminal in H0.
+    apply (forallb_seq_lt _ _ H0 j Hj).
+  - (* WFinish *) specialize (HX1 X i ltac:(assumption)). nsimpl. destruct (st (nd s i)); auto; discriminate.
+  - (* HBegin *) unfold all_gone in G. pose proof (forallb_seq_lt _ _ G j Hj) as Hg. unfold worker_gone in Hg.
+    destruct (ph (nd s j)); auto; discriminate.
+Qed.
+
+Lemma xinv_init : XInv (init c).
+Proof. intros _. cbn [init pc past_exit past_wait]. split; intros X; discriminate X. Qed.
+
+Lemma run_all_inv s ls s' : Inv s -> QInv s -> XInv s -> run c s ls = Some s' -> Inv s' /\ QInv s' /\ XInv s'.
+Proof.
+  revert s. induction ls as [|l ls IH]; simpl; intros s HI HQ HX Hr.
+  - injection Hr as <-. auto.
+  - destruct (step s l) eqn:Hs; [|discriminate]. eapply IH; [| | |exact Hr].
+    + eapply inv_step; eauto.
+    + eapply qinv_step; eauto.
+    + eapply xinv_step; eauto.
+Qed.
+
+Lemma reach_all_inv s : Reach c s -> Inv s /\ QInv s /\ XInv s.
+Proof. intros [ls Hr]. eapply run_all_inv; [apply inv_init; auto|apply qinv_init|apply xinv_init|exact Hr]. Qed.
+
+(* ---- the final node table of a run that was neither stopped nor timed out ---- *)
+Definition blocking (s : state) (d : nat) : bool := match dep_mark c s d with Some _ => true | None => false end.
+Definition blocked (s : state) (i : nat) : bool := existsb (blocking s) (deps (steps c i)).
+
+Lemma blocked_false s i : blocked s i = false -> forall d, In d (deps (steps c i)) -> dep_mark c s d = None.
+Proof.
+  unfold blocked, blocking. intros H d Hd.
+  destruct (dep_mark c s d) eqn:E; [|reflexivity].
+  exfalso. assert (existsb (fun d => match dep_mark c s d with Some _ => true | None => false end) (deps (steps c i)) = true).
+  { apply existsb_exists. exists d. rewrite E. auto. }
+  congruence.
+Qed.
+
+Lemma blocked_true s i : blocked s i = true -> exists d m, In d (deps (steps c i)) /\ dep_mark c s d = Some m.
+Proof.
+  unfold blocked, blocking. intros H. apply existsb_exists in H. destruct H as (d & Hin & Hd).
+  destruct (dep_mark c s d) eqn:E; [|discriminate]. eauto.
+Qed.
+
+(* what a runnable step's attempt history looks like at the end *)
+Definition ran_to_end (s : state) (i : nat) : Prop :=
+  let x := nd s i in
+  exists last fs, outs x = last :: fs /\ allf fs /\ att x = length (outs x) /\ att x = S (rc x) /\
+    (last = true -> st x = NSuccess) /\
+    (last = false -> st x = NError /\ rc x = rlimit (steps c i)).
+
+Theorem final_states s : Reach c s -> quiet s -> pc s = LDone -> forall i, i < n ->
+  (blocked s i = true ->
+     att (nd s i) = 0 /\ ((st (nd s i) = NCancel /\ blocker s i NCancel) \/ (st (nd s i) = NSkipped /\ blocker s i NSkipped))) /\
+  (blocked s i = false -> pre (steps c i) = false -> att (nd s i) = 0 /\ st (nd s i) = NSkipped) /\
+  (blocked s i = false -> pre (steps c i) = true -> dry c = true -> att (nd s i) = 0 /\ st (nd s i) = NSuccess) /\
+  (blocked s i = false -> pre (steps c i) = true -> dry c = false -> sfail (steps c i) = true ->
+     att (nd s i) = 0 /\ st (nd s i) = NError) /\
+  (blocked s i = false -> pre (steps c i) = true -> dry c = false -> sfail (steps c i) = false -> ran_to_end s i).
+Proof.
+  intros Hr Hq Hpc i Hi. destruct (reach_all_inv s Hr) as (HI & HQ & HX).
+  specialize (HQ Hq i). destruct (HX Hq) as [HX1 HX2]. rewrite Hpc in *.
+  specialize (HX1 eq_refl i Hi). specialize (HX2 eq_refl i Hi).
+  pose proof (iA _ _ HI i) as HAi. pose proof (iC _ _ HI i) as HCi. pose proof (iD _ _ HI i) as HDi.
+  unfold qnode, qnode_gen in HQ. destruct HQ as (Q1 & Q2 & Q3). unfold coherent in HAi. unfold counts in HDi.
+  assert (Hsf : setup_fails c i = sfail (steps c i) && negb (dry c)) by reflexivity.
+  (* a node that was launched has no blocking dependency *)
+  assert (Hlb : ph (nd s i) = PGone -> blocked s i = false).
+  { intros Hp. destruct (blocked s i) eqn:Eb; [|reflexivity]. exfalso.
+    destruct (blocked_true s i Eb) as (d & m & Hin & Hm).
+    assert (Hl : launched s i) by (left; congruence).
+    pose proof (okterm_mark_none s d (HCi Hl d Hin)). congruence. }
+  destruct HX2 as [Hp|Hp]; rewrite Hp in *.
+  - (* never launched: canceled or skipped *)
+    destruct (st (nd s i)) eqn:Est; try discriminate HX1; try (exfalso; intuition discriminate).
+    + (* canceled *)
+      destruct Q3 as (A1 & A2 & A3 & A4).
+      assert (Hb : blocked s i = true).
+      { destruct A4 as (d & Hin & Hd). unfold blocked. apply existsb_exists. exists d. unfold blocking. rewrite Hd. auto. }
+      rewrite Hb. repeat split; try discriminate; auto.
+    + (* skipped *)
+      destruct Q3 as (A1 & A2 & A3 & A4). destruct A4 as [A4|[A4 A5]].
+      * assert (Hb : blocked s i = true).
+        { destruct A4 as (d & Hin & Hd). unfold blocked. apply existsb_exists. exists d. unfold blocking. rewrite Hd. auto. }
+        rewrite Hb. repeat split; try discriminate; auto.
+      * assert (Hb : blocked s i = false).
+        { destruct (blocked s i) eqn:Eb; [|reflexivity]. exfalso.
+          destruct (blocked_true s i Eb) as (d & m & Hin & Hm).
+          pose proof (okterm_mark_none s d (A5 d Hin)). congruence. }
+        rewrite Hb, A4. repeat split; try discriminate; auto.
+  - (* launched and gone *)
+    rewrite (Hlb eq_refl).
+    assert (Hpre : pre (steps c i) = true) by (apply Q2; left; discriminate).
+    rewrite Hpre.
+    split; [discriminate|]. split; [discriminate|].
+    destruct (st (nd s i)) eqn:Est; try discriminate HX1;
+      try (exfalso; lazy iota beta in Q3; exact Q3); try (exfalso; intuition discriminate).
+    + (* failed *)
+      destruct (dry c) eqn:Edry.
+      * exfalso. destruct (Q1 (or_intror eq_refl)) as [Qa Qb].
+        rewrite Hsf in Q3. rewrite Bool.andb_false_r in Q3. destruct (Q3 eq_refl) as [X _]. discriminate.
+      * split; [discriminate|]. rewrite Hsf in *. rewrite Bool.andb_true_r in *.
+        destruct (sfail (steps c i)) eqn:Esf.
+        -- split; [|discriminate]. intros _ _ _ _. split; [apply Q1; auto|reflexivity].
+        -- split; [discriminate|]. intros _ _ _ _. destruct (Q3 eq_refl) as (_ & B2 & B3 & B4 & B5).
+           unfold ran_to_end. rewrite Est.
+           destruct (outs (nd s i)) as [|o fs] eqn:Eo; [simpl in B3; lia|].
+           apply allf_cons_inv in B2. destruct B2 as [-> B2].
+           exists false, fs. repeat split; auto; try discriminate.
+    + (* finished *)
+      lazy iota beta in Q3. destruct Q3 as [Q3 Q4]. unfold ran_ok in Q3.
+      destruct (dry c) eqn:Edry.
+      * split; [intros _ _ _; split; [apply Q3|reflexivity]|]. split; discriminate.
+      * split; [discriminate|]. rewrite Hsf, Bool.andb_true_r in Q4. rewrite Q4.
+        split; [discriminate|]. intros _ _ _ _. destruct Q3 as (fs & B1 & B2 & B3 & B4).
+        unfold ran_to_end. rewrite Est. exists true, fs. repeat split; auto; try discriminate.
+Qed.
+
+
+(* C02 corollary: a step none of whose dependencies blocks, with its precondition met, is executed at least once
+   and ends finished or failed (never canceled, skipped or left over) *)
+Corollary unaffected_run s : Reach c s -> quiet s -> pc s = LDone -> forall i, i < n ->
+  dry c = false -> sfail (steps c i) = false -> pre (steps c i) = true ->
+  (forall d, In d (deps (steps c i)) -> dep_mark c s d = None) ->
+  att (nd s i) >= 1 /\ (st (nd s i) = NSuccess \/ st (nd s i) = NError).
+Proof.
+  intros Hr Hq Hpc i Hi Hdry Hsf Hpre Hnb.
+  assert (Hb : blocked s i = false).
+  { destruct (blocked s i) eqn:Eb; [|reflexivity]. exfalso.
+    destruct (blocked_true s i Eb) as (d & m & Hin & Hm). rewrite (Hnb d Hin) in Hm. discriminate. }
+  destruct (final_states s Hr Hq Hpc i Hi) as (_ & _ & _ & _ & H5).
+  destruct (H5 Hb Hpre Hdry Hsf) as (last & fs & E1 & E2 & E3 & E4 & E5 & E6).
+  split; [lia|]. destruct last; [left; auto|right; apply E6; auto].
+Qed.
+
+(* C03: runnable = no blocking dependency, precondition met, set-up possible *)
+Definition runnable (s : state) (i : nat) : bool :=
+  negb (blocked s i) && pre (steps c i) && negb (sfail (steps c i)).
+
+Theorem exact_attempts s : Reach c s -> quiet s -> pc s = LDone -> dry c = false -> forall i, i < n ->
+  (runnable s i = true ->
+     exists last fs, outs (nd s i) = last :: fs /\ allf fs /\
+       att (nd s i) = length (outs (nd s i)) /\ att (nd s i) = S (rc (nd s i)) /\
+       att (nd s i) <= S (rlimit (steps c i)) /\
+       (last = false -> att (nd s i) = S (rlimit (steps c i)))) /\
+  (runnable s i = false -> att (nd s i) = 0).
+Proof.
+  intros Hr Hq Hpc Hdry i Hi. unfold runnable.
+  destruct (final_states s Hr Hq Hpc i Hi) as (H1 & H2 & H3 & H4 & H5).
+  destruct (C03_bounds c Hdone Hnorep s i Hr) as [Hb1 Hb2].
+  destruct (blocked s i) eqn:Eb; cbn [negb andb].
+  - split; [discriminate|]. intros _. apply (H1 eq_refl).
+  - destruct (pre (steps c i)) eqn:Ep; cbn [andb].
+    + destruct (sfail (steps c i)) eqn:Es; cbn [negb].
+      * split; [discriminate|]. intros _. apply (H4 eq_refl eq_refl Hdry eq_refl).
+      * split; [|discriminate]. intros _.
+        destruct (H5 eq_refl eq_refl Hdry eq_refl) as (last & fs & E1 & E2 & E3 & E4 & E5 & E6).
+        exists last, fs. repeat split; auto; try lia.
+        intros ->. destruct (E6 eq_refl) as [_ E7]. lia.
+    + split; [discriminate|]. intros _. apply (H2 eq_refl eq_refl).
+Qed.
 
 End Final.
+
+(* C03, dry run: no command and no handler is ever started *)
+Lemma dry_no_exec c s i : dry c = true -> step c s (WExecStart i) = None.
+Proof.
+  intros Hd. cbn [step]. destruct (ph (nd s i)); try reflexivity. rewrite Hd, Bool.andb_false_r. reflexivity.
+Qed.
+Lemma dry_no_handler c s h : dry c = true -> step c s (HStart h) = None.
+Proof.
+  intros Hd. cbn [step]. destruct (pc s); try reflexivity. destruct todo; try reflexivity.
+  destruct cur; try reflexivity. rewrite Hd, Bool.andb_false_r. reflexivity.
+Qed.
+
+Theorem dry_runs_nothing c : dry c = true -> forall ls s s', run c s ls = Some s' ->
+  forall l, In l ls -> (forall i, l <> WExecStart i) /\ (forall h, l <> HStart h).
+Proof.
+  intros Hd ls. induction ls as [|l0 ls IH]; simpl; intros s s' Hr l Hin; [tauto|].
+  destruct (step c s l0) eqn:Hs; [|discriminate].
+  destruct Hin as [->|Hin]; [|eapply IH; eauto].
+  split.
+  - intros i ->. rewrite dry_no_exec in Hs by assumption. discriminate.
+  - intros h ->. rewrite dry_no_handler in Hs by assumption. discriminate.
+Qed.
+
+
+(* one worker slot per node: a command can only start from phase PStarting, so never while one is executing *)
+Lemma start_needs_starting c s i s' : step c s (WExecStart i) = Some s' -> ph (nd s i) = PStarting /\ ph (nd s' i) = PExec.
+Proof.
+  cbn [step]. destruct (ph (nd s i)) eqn:E; try discriminate. intros H. split; [reflexivity|].
+  destruct ((i <? nsteps c) && negb (dry c)); [|discriminate]. injection H as <-.
+  unfold set_nd, upd. cbn [nd]. rewrite Nat.eqb_refl. reflexivity.
+Qed.
